@@ -141,7 +141,7 @@ class Scenario:
         return True
 
     # ---- obligations
-    def oblige(self, kind, goal, exact=True, finding=None, note=None, tag=None, oracle=None, hint=None):
+    def oblige(self, kind, goal, exact=True, finding=None, note=None, tag=None, oracle=None, hint=None, shape=False):
         """state a goal under the current path condition; top-level conjunctions become one obligation each"""
         name = f'{self.ck.prop}/{self.func_name}/{kind}'
         if self.label:
@@ -159,6 +159,13 @@ class Scenario:
                 meta['oracle'] = dict(meta['oracle'], prop=self.oracle_prop)
         if hint is not None:
             meta['refute_hint'] = hint      # a sub-class of inputs expected to contain a counter-model
+        if shape and goal is False:
+            # shape=True marks a CODE-SHAPED check (the implementation is recognised by pattern matching on the recorded
+            # calls): a mismatch means "implementation not recognised" — the clause is then undecided, and the native
+            # oracle of the scenario decides whether this is a violation (a failing input) or stays undecided (exit 2)
+            self.ck._undecided(self.func_name, self.label, f'implementation shape not recognised: {tag or kind}',
+                               oracle=_scenario_oracle_spec(self, oracle))
+            return []
         out = self.run.oblige(name, goal, kind=kind, exact=exact, meta=meta)
         out = out if isinstance(out, list) else [out]
         return out
@@ -180,6 +187,13 @@ class ObRec:
         self.meta = {k: ob.meta.get(k) for k in ('finding', 'oracle', 'note', 'func', 'scenario') if ob.meta.get(k)}
         self.nhyps = len(ob.hyps)
         self.witness, self.goal_str, self.hyps_str = {}, '', []
+
+
+def _scenario_oracle_spec(S, oracle=None):
+    o = oracle or getattr(S, 'oracle', None)
+    if o and getattr(S, 'oracle_prop', None):
+        o = dict(o, prop=S.oracle_prop)
+    return o
 
 
 def _scenario_oracle(S):
